@@ -1,101 +1,130 @@
-//! C19 — counted repetition and raw combinators obey their bounds.
+//! C19 — counted repetition and the raw combinators obey their stated bounds (runtime crate used directly).
+use crate::c03::{Nk, RSk, Sk, FREE, PROG};
+use crate::common::*;
 use crate::nd;
-use crate::stubs;
+use crate::refpeg::*;
+use crate::rel::*;
+use pest_typed::choices::*;
 use pest_typed::predefined_node::*;
-use pest_typed::tracker::Tracker;
-use pest_typed::{Input, Stack, TypedNode, Span, StringWrapper};
-use pest_typed::AsInput;
+use pest_typed::sequence::*;
+use pest_typed::TypedNode;
 
-#[derive(Clone, Copy, Debug, Eq, Hash, Ord, PartialEq, PartialOrd)]
-pub enum R { X, EOI }
-
-#[derive(Clone, PartialEq)] pub struct A;
-impl StringWrapper for A { const CONTENT: &'static str = "a"; }
-#[derive(Clone, PartialEq)] pub struct SP;
-impl StringWrapper for SP { const CONTENT: &'static str = " "; }
-type Ws<'i> = AtomicRepeat<Str<SP>>;
-
-fn probe() {
-    let buf = nd::ascii_buf::<3>(b"a x");
-    let s = nd::as_str(&buf);
-    let mut stack = Stack::new();
-    let input = s.as_input();
-    let mut tracker = Tracker::<R>::new(input);
-    stubs::stack_reset();
-    let r = <RepMin<Str<A>, Ws<'_>, 1, 1> as TypedNode<R>>::try_check_partial_with(input, &mut stack, &mut tracker);
-    // reference
-    let b = s.as_bytes();
-    let mut pos = 0usize;
-    let mut n = 0;
-    if b[0] == b'a' { pos = 1; n = 1;
-        let mut p = pos;
-        // iteration 2
-        let mut q = p; while q < 3 && b[q] == b' ' { q += 1; }
-        if q < 3 && b[q] == b'a' { p = q + 1; n = 2;
-            let mut q = p; while q < 3 && b[q] == b' ' { q += 1; }
-            if q < 3 && b[q] == b'a' { p = q + 1; n = 3; }
+/// Bounded repetition of an abstract progressing child (id 0, kind K) with abstract skip:
+/// MIN <= n <= MAX, n == reference count, parse == check == reference, and the final cursor is the
+/// end of the last matched iteration (a skip not followed by a matched iteration is given back).
+fn rep_abs<const SKIP: usize, const MIN: usize, const MAX: usize, const KIND: u8>(d0: usize) {
+    abs_init(3, PROG);
+    let p0 = nd::usize();
+    nd::assume(p0 <= 3);
+    let (o, v) = pc_ref::<RepMinMax<Abs<0, KIND>, AbsSkip<3>, SKIP, MIN, MAX>, RRep<RSk, SKIP, RAbs<0, KIND>, MIN, MAX>>(XXX, p0, d0);
+    if let Some(v) = v {
+        let n = v.content.len();
+        assert!(n >= MIN && n <= MAX, "number of elements outside MIN..=MAX");
+        assert!(n == o.reference.unwrap().last_reps, "element count differs from the reference");
+        let end = o.parse.unwrap();
+        if n > 0 {
+            assert!(v.content[n - 1].matched.end == end, "cursor is not the end of the last matched iteration");
+            assert!(v.content[0].matched.start == p0, "first iteration does not start at the cursor (skip before it?)");
+        } else {
+            assert!(end == p0, "zero iterations but input consumed");
         }
-        pos = p;
+        let mut i = 1;
+        while i < 3 {
+            if i < n {
+                assert!(v.content[i].matched.start >= v.content[i - 1].matched.end, "iterations overlap / out of order");
+                if SKIP == 0 {
+                    assert!(v.content[i].matched.start == v.content[i - 1].matched.end, "gap between iterations without skip");
+                }
+            }
+            i += 1;
+        }
+        core::mem::forget(v);
     }
-    cover!(n == 2 && pos == 3, "skip consumed between iterations");
-    match r {
-        Some(i) => { assert!(n >= 1); assert!(i.byte_offset() == pos); }
-        None => assert!(n == 0),
+    cover!(o.check.is_some() && (MAX == 0 || o.reference.unwrap().last_reps == MAX || MAX > 3), "accepted (at MAX where reachable)");
+    cover!(o.check.is_none() || MIN == 0, "rejected (n/a for MIN = 0)");
+}
+fn repmin_abs<const SKIP: usize, const MIN: usize, const KIND: u8>(d0: usize) {
+    abs_init(3, PROG);
+    let p0 = nd::usize();
+    nd::assume(p0 <= 3);
+    let (o, v) = pc_ref::<RepMin<Abs<0, KIND>, AbsSkip<3>, SKIP, MIN>, RRep<RSk, SKIP, RAbs<0, KIND>, MIN, { usize::MAX }>>(XXX, p0, d0);
+    if let Some(v) = v {
+        let n = v.content.len();
+        assert!(n >= MIN, "fewer than MIN elements");
+        assert!(n == o.reference.unwrap().last_reps, "element count differs from the reference");
+        let end = o.parse.unwrap();
+        if n > 0 {
+            assert!(v.content[n - 1].matched.end == end, "cursor is not the end of the last matched iteration");
+        } else {
+            assert!(end == p0);
+        }
+        core::mem::forget(v);
     }
-    core::mem::forget(stack); core::mem::forget(tracker);
+    cover!(o.check.is_some() && o.reference.unwrap().last_reps >= 2, "two or more iterations");
+    cover!(o.check.is_none() || MIN == 0, "rejected (n/a for MIN = 0)");
 }
 
-fn probe2() {
-    let buf = nd::ascii_buf::<3>(b"a x");
-    let s = nd::as_str(&buf);
-    let mut stack = Stack::new();
-    let input = s.as_input();
-    let mut tracker = Tracker::<R>::new(input);
-    stubs::stack_reset();
-    let r = <RepMin<Str<A>, Empty<'_>, 0, 1> as TypedNode<R>>::try_check_partial_with(input, &mut stack, &mut tracker);
-    let b = s.as_bytes();
-    let mut n = 0; while n < 3 && b[n] == b'a' { n += 1; }
-    match r {
-        Some(i) => { assert!(n >= 1); assert!(i.byte_offset() == n); }
-        None => assert!(n == 0),
-    }
-    core::mem::forget(stack); core::mem::forget(tracker);
+/// Concrete element kinds on text over a small alphabet.
+fn conc<'i, T: TypedNode<'i, R>, RT: RefNode, const L: usize>(buf: &'i [u8; L], d0: usize, want: usize) {
+    let s = nd::as_str(buf);
+    let p0 = nd::usize();
+    nd::assume(p0 <= L);
+    let (o, _) = pc_ref::<T, RT>(s, p0, d0);
+    cover!(o.check.is_some() && o.check.unwrap() >= p0 + want, "matched at least `want` bytes");
+    cover!(o.check.is_none() || o.check == Some(p0), "rejected or matched empty");
 }
-fn probe3() {
-    let buf = nd::ascii_buf::<3>(b"a x");
-    let s = nd::as_str(&buf);
-    let mut stack = Stack::new();
-    let input = s.as_input();
-    stubs::stack_reset();
-    let r = <Ws<'_> as pest_typed::NeverFailedTypedNode<R>>::check_with(input, &mut stack);
-    let b = s.as_bytes();
-    let mut n = 0; while n < 3 && b[n] == b' ' { n += 1; }
-    assert!(r.byte_offset() == n);
-    core::mem::forget(stack);
+macro_rules! conc_h {
+    ($t:ty, $rt:ty, $l:expr, $alpha:expr, $d0:expr, $want:expr) => {{
+        let buf = nd::ascii_buf::<{ $l }>($alpha);
+        conc::<$t, $rt, { $l }>(&buf, $d0, $want)
+    }};
 }
-fn probe4() {
-    let buf = nd::ascii_buf::<3>(b"a x");
-    let s = nd::as_str(&buf);
-    let input = s.as_input();
-    let tracker = Tracker::<R>::new(input);
-    drop(tracker);
-}
-fn probe5() {
-    let buf = nd::ascii_buf::<3>(b"a x");
-    let s = nd::as_str(&buf);
-    let input = s.as_input();
-    let tracker = Tracker::<R>::new(input);
-    core::mem::forget(tracker);
-}
+type SkW<T> = Skipped<T, Ws, 1>;
+type NkW<T> = Skipped<T, Ws, 0>;
+type PushPop<'i> = Seq2<NkW<Push<Str<A>>>, NkW<POP<'i>>>;
+type RPushPop = RSeq2<RWs, 0, RPush<RStr<A>>, RPop>;
+
 harnesses! {
-    #[kani::unwind(6)]
-    fn c19_probe4() [T0 S] : "Q|probe" { probe4() }
-    #[kani::unwind(6)]
-    fn c19_probe5() [T0 S] : "Q|probe" { probe5() }
-    #[kani::unwind(6)]
-    fn c19_probe2() [T0 S] : "Q|probe" { probe2() }
-    #[kani::unwind(6)]
-    fn c19_probe3() [T0 S] : "Q|probe" { probe3() }
-    #[kani::unwind(6)]
-    fn c19_probe() [T0 S] : "Q|probe" { probe() }
+    // ---- RepMinMax: all MIN <= MAX in 0..3 with skip (abstract child), a selection without skip
+    #[kani::unwind(8)] fn c19_mm_0_0_s() [T0 S] : "Q|RepMinMax<_,0,0> with skip: never iterates; abstract progressing child, 3 positions" { rep_abs::<1, 0, 0, 0>(0) }
+    #[kani::unwind(8)] fn c19_mm_0_1_s() [T0 S] : "Q|RepMinMax<_,0,1> with skip" { rep_abs::<1, 0, 1, 0>(0) }
+    #[kani::unwind(8)] fn c19_mm_0_2_s() [T0 S] : "Q|RepMinMax<_,0,2> with skip" { rep_abs::<1, 0, 2, 0>(0) }
+    #[kani::unwind(8)] fn c19_mm_0_3_s() [T0 S] : "Q|RepMinMax<_,0,3> with skip" { rep_abs::<1, 0, 3, 0>(0) }
+    #[kani::unwind(8)] fn c19_mm_1_1_s() [T0 S] : "Q|RepMinMax<_,1,1> with skip" { rep_abs::<1, 1, 1, 0>(0) }
+    #[kani::unwind(8)] fn c19_mm_1_2_s() [T0 S] : "Q|RepMinMax<_,1,2> with skip (pushing child)" { rep_abs::<1, 1, 2, 1>(0) }
+    #[kani::unwind(8)] fn c19_mm_1_3_s() [T0 S] : "Q|RepMinMax<_,1,3> with skip" { rep_abs::<1, 1, 3, 0>(0) }
+    #[kani::unwind(8)] fn c19_mm_2_2_s() [T0 S] : "Q|RepMinMax<_,2,2> = RepExact<2> with skip" { rep_abs::<1, 2, 2, 0>(0) }
+    #[kani::unwind(8)] fn c19_mm_2_3_s() [T0 S] : "Q|RepMinMax<_,2,3> with skip (popping child, depth 3)" { rep_abs::<1, 2, 3, 2>(3) }
+    #[kani::unwind(8)] fn c19_mm_3_3_s() [T0 S] : "Q|RepMinMax<_,3,3> = RepExact<3> with skip" { rep_abs::<1, 3, 3, 0>(0) }
+    #[kani::unwind(8)] fn c19_mm_0_2_n() [T0 S] : "Q|RepMinMax<_,0,2> without skip" { rep_abs::<0, 0, 2, 0>(0) }
+    #[kani::unwind(8)] fn c19_mm_1_2_n() [T0 S] : "Q|RepMinMax<_,1,2> without skip" { rep_abs::<0, 1, 2, 0>(0) }
+    #[kani::unwind(8)] fn c19_mm_2_3_n() [T0 S] : "Q|RepMinMax<_,2,3> without skip" { rep_abs::<0, 2, 3, 1>(0) }
+    #[kani::unwind(8)] fn c19_mm_1_4_s() [T0 S] : "T|RepMinMax<_,1,4> with skip (MAX beyond the input)" { rep_abs::<1, 1, 4, 0>(0) }
+    // ---- RepMin: MIN 0..3, skip on/off
+    #[kani::unwind(8)] fn c19_min_0_s() [T0 S] : "Q|RepMin<_,0> with skip" { repmin_abs::<1, 0, 0>(0) }
+    #[kani::unwind(8)] fn c19_min_1_s() [T0 S] : "Q|RepMin<_,1> with skip" { repmin_abs::<1, 1, 1>(0) }
+    #[kani::unwind(8)] fn c19_min_2_s() [T0 S] : "Q|RepMin<_,2> with skip" { repmin_abs::<1, 2, 0>(0) }
+    #[kani::unwind(8)] fn c19_min_3_s() [T0 S] : "Q|RepMin<_,3> with skip" { repmin_abs::<1, 3, 0>(0) }
+    #[kani::unwind(8)] fn c19_min_0_n() [T0 S] : "Q|RepMin<_,0> without skip" { repmin_abs::<0, 0, 0>(0) }
+    #[kani::unwind(8)] fn c19_min_2_n() [T0 S] : "Q|RepMin<_,2> without skip" { repmin_abs::<0, 2, 1>(0) }
+    // ---- element kinds on concrete text
+    #[kani::unwind(8)] fn c19_str_mm12_skip() [T0 S] : "Q|RepMinMax<\"a\",1,2> with WS skip on text: 4 bytes over {a,' ',x}" {
+        conc_h!(RepMinMax<Str<A>, Ws, 1, 1, 2>, RRep<RWs, 1, RStr<A>, 1, 2>, 4, b"a x", 0, 3) }
+    #[kani::unwind(8)] fn c19_choice_mm02() [T0 S] : "Q|RepMinMax<Choice2<\"ab\",\"a\">,0,2> no skip: greedy, ordered" {
+        conc_h!(RepMinMax<Choice2<Str<AB>, Str<A>>, Ws, 0, 0, 2>, RRep<RWs, 0, RChoice2<RStr<AB>, RStr<A>>, 0, 2>, 4, b"abx", 0, 3) }
+    #[kani::unwind(8)] fn c19_nested_rep() [T0 S] : "Q|RepMinMax<RepMinMax<\"a\",1,2>,0,2> with skip on the outer only" {
+        conc_h!(RepMinMax<RepMinMax<Str<A>, Ws, 0, 1, 2>, Ws, 1, 0, 2>, RRep<RWs, 1, RRep<RWs, 0, RStr<A>, 1, 2>, 0, 2>, 4, b"a x", 0, 3) }
+    #[kani::unwind(8)] fn c19_stackop_exact2() [T0 S] : "Q|RepExact<Seq2<Push<\"a\">,POP>,2> (stack op element)" {
+        conc_h!(RepExact<PushPop<'_>, Ws, 0, 2>, RRep<RWs, 0, RPushPop, 2, 2>, 4, b"ab", 0, 4) }
+    // ---- raw combinators
+    #[kani::unwind(8)] fn c19_array0() [T0 S] : "Q|[T;0] matches empty" { conc_h!([Str<A>; 0], RArr<RStr<A>, 0>, 3, b"ab", 0, 0) }
+    #[kani::unwind(8)] fn c19_array3() [T0 S] : "Q|[\"a\";3] = aaa" { conc_h!([Str<A>; 3], RArr<RStr<A>, 3>, 4, b"ab", 0, 3) }
+    #[kani::unwind(8)] fn c19_pair() [T0 S] : "Q|(\"a\",\"ab\")" { conc_h!((Str<A>, Str<AB>), RPair<RStr<A>, RStr<AB>>, 4, b"ab", 0, 3) }
+    #[kani::unwind(8)] fn c19_option() [T0 S] : "Q|Option<\"ab\">" { conc_h!(Option<Str<AB>>, ROpt<RStr<AB>>, 3, b"ab", 0, 2) }
+    #[kani::unwind(8)] fn c19_atomic_repeat() [T0 S] : "Q|AtomicRepeat<Choice2<\" \",\"ab\">> (the skip-repeat node)" {
+        conc_h!(AtomicRepeat<Choice2<Str<SP>, Str<AB>>>, RRep<REmpty, 0, RChoice2<RStr<SP>, RStr<AB>>, 0, { usize::MAX }>, 4, b"ab ", 0, 3) }
+    #[kani::unwind(9)] fn c19_str_mm23_skip_5() [T0 S] : "T|RepMinMax<\"a\",2,3> with WS skip, 5 bytes" {
+        conc_h!(RepMinMax<Str<A>, Ws, 1, 2, 3>, RRep<RWs, 1, RStr<A>, 2, 3>, 5, b"a x", 0, 4) }
+    #[kani::unwind(10)] fn c19_str_min1_skip_6() [T0 S] : "T|RepMin<\"a\",1> with WS skip, 6 bytes" {
+        conc_h!(RepMin<Str<A>, Ws, 1, 1>, RRep<RWs, 1, RStr<A>, 1, { usize::MAX }>, 6, b"a x", 0, 4) }
 }
